@@ -607,6 +607,12 @@ def iterate(it, v, node=None):
         it.raise_(TypeError, "not iterable", node=node)
     if isinstance(v, Opaque):
         it.outside(f"iteration over opaque {v.tag}", node)
+    if type(v).__name__ == "SymRange":
+        # range with symbolic bounds: iterable here only when its LENGTH is concrete
+        n = sym.simp(sym.to_int(v.stop) - sym.to_int(v.start))
+        if isinstance(n, int) and isinstance(v.step, int) and v.step > 0:
+            return [v.start + k * v.step for k in range(max(0, -(-n // v.step)))]
+        it.outside("iteration over a range of symbolic length", node)
     m = _repo_dunder(it, v, "__iter__")
     if m is not None:
         return iterate(it, it.call(m, [], {}, node), node)
